@@ -405,7 +405,10 @@ static uint64_t run_op(ThreadCtx &T, const Op &op)
                                            ascon_hkdfa_extract(&hk, k, 20, a, adlen); r += ascon_hkdfa_expand(&hk, m, mlen % 9, T.out + 128, 40); ascon_hkdfa_free(&hk)); }
         LIB(ascon_pbkdf2(T.out + 88, 24, m, mlen % 13, a, adlen % 11, 2); ascon_pbkdf2_hmac(T.out + 112, 8, m, mlen % 13, a, adlen % 11, 1));
         clen = 168; break; }
-    case 16: LIB(r = ascon_random(T.out, 32 + mlen % 32)); clen = 32 + mlen % 32; break;
+    case 16: // the global one-shot generator and the state-less forms of the object interface (the code accepts a null state)
+        LIB(r = ascon_random(T.out, 32 + mlen % 32); ascon_random_fetch(nullptr, T.out + 64, 24 + mlen % 9); ascon_random_feed(nullptr, m, mlen % 8);
+            r += ascon_random_reseed(nullptr); r += ascon_random_init(nullptr); ascon_random_free(nullptr));
+        clen = 100; break;
     case 17: LIB(ascon_random_init(&T.prng); ascon_random_feed(&T.prng, m, mlen % 24); ascon_random_fetch(&T.prng, T.out, 48); ascon_random_free(&T.prng)); clen = 48; break;
     // C++ wrappers (built with clang++ and the same callbacks); raw-pointer overloads only, so that the
     // library never allocates and address reuse through malloc cannot fake a race
